@@ -295,7 +295,7 @@ Definition segment_piece (out : list pathop) (a b normal : pt) (hw : f32) : list
     :: LineTo (fadd (px b) (fmul (px normal) hw), fadd (py b) (fmul (py normal) hw))
     :: MoveTo (fadd (px a) (fmul (px normal) hw), fadd (py a) (fmul (py normal) hw)) :: out.
 
-Record stroke_acc := mk_sa { sa_cur : option pt; sa_last : pt; sa_start : option (pt * pt); sa_out : list pathop }.
+Record stroke_acc := mk_sa { sa_cur : option pt; sa_last : pt; sa_start : option (pt * pt); sa_first : option pt; sa_out : list pathop }.
 Definition caps (out : list pathop) (st : stroke_style) (cur : option pt) (last : pt) (start : option (pt * pt)) : list pathop :=
   match cur, start with
   | Some c, Some (p, n) => cap_line (cap_line out st c last) st p (vflip n)
@@ -303,10 +303,10 @@ Definition caps (out : list pathop) (st : stroke_style) (cur : option pt) (last 
   end.
 Definition stroke_op (st : stroke_style) (hw : f32) (a : stroke_acc) (o : pathop) : result stroke_acc :=
   match o with
-  | MoveTo p => Ok (mk_sa (Some p) (sa_last a) None (caps (sa_out a) st (sa_cur a) (sa_last a) (sa_start a)))
+  | MoveTo p => Ok (mk_sa (Some p) (sa_last a) None (Some p) (caps (sa_out a) st (sa_cur a) (sa_last a) (sa_start a)))
   | LineTo p =>
       match sa_cur a with
-      | None => Ok (mk_sa (Some p) (sa_last a) None (sa_out a))
+      | None => Ok (mk_sa (Some p) (sa_last a) None (Some p) (sa_out a))
       | Some cur =>
           match compute_normal cur p with
           | Some normal =>
@@ -314,8 +314,8 @@ Definition stroke_op (st : stroke_style) (hw : f32) (a : stroke_acc) (o : pathop
                                    | None => (Some (cur, normal), sa_out a)
                                    | Some s => (Some s, join_line (sa_out a) st cur (sa_last a) normal)
                                    end in
-              Ok (mk_sa (Some p) normal start (segment_piece out cur p normal hw))
-          | None => Ok (mk_sa (Some p) (sa_last a) (sa_start a) (sa_out a))
+              Ok (mk_sa (Some p) normal start (sa_first a) (segment_piece out cur p normal hw))
+          | None => Ok (mk_sa (Some p) (sa_last a) (sa_start a) (sa_first a) (sa_out a))
           end
       end
   | Close =>
@@ -332,7 +332,7 @@ Definition stroke_op (st : stroke_style) (hw : f32) (a : stroke_acc) (o : pathop
         | _, _ => sa_out a
         end in
       (* last_normal is only updated by LineTo in the code *)
-      Ok (mk_sa (match sa_start a with Some (p, _) => Some p | None => None end) (sa_last a) None out)
+      Ok (mk_sa (sa_first a) (sa_last a) None (sa_first a) out)
   | QuadTo _ _ | CubicTo _ _ _ _ => Err Unsupported
   end.
 Fixpoint stroke_ops (st : stroke_style) (hw : f32) (a : stroke_acc) (ops : list pathop) : result stroke_acc :=
@@ -340,5 +340,5 @@ Fixpoint stroke_ops (st : stroke_style) (hw : f32) (a : stroke_acc) (ops : list 
 Definition stroke_to_path (p : path) (st : stroke_style) : result path :=
   if fle (s_width st) f0 then Ok (mk_path [] NonZero) else
   let hw := fdiv (s_width st) (of_int 2) in
-  do a <- stroke_ops st hw (mk_sa None pzero None []) (p_ops p);
+  do a <- stroke_ops st hw (mk_sa None pzero None None []) (p_ops p);
   Ok (mk_path (rev (caps (sa_out a) st (sa_cur a) (sa_last a) (sa_start a))) NonZero).
